@@ -31,9 +31,11 @@ def gen_spec(rng, n_m=4, n_p=3, n_v=3, pkg="vpk", p_hidden=0.15, p_explicit=0.2,
     for nm in unames:
         nodes.append({"name": nm, "kind": "u", "module": rng.choice("ab")})
     for i in range(n_v):
-        kind = rng.choice(["int", "int", "str", "list", "dict", "float", "unsupported"])
+        kind = rng.choice(["int", "int", "str", "list", "dict", "float", "unsupported", "tuplist", "mixedset"])
         val = {"int": rng.randint(1, 9), "str": "s%d" % rng.randint(1, 9), "list": [rng.randint(1, 5), rng.randint(1, 5)],
-               "dict": {"k": rng.randint(1, 9)}, "float": rng.choice([0.5, 1.5, 2.25]), "unsupported": None}[kind]
+               "dict": {"k": rng.randint(1, 9)}, "float": rng.choice([0.5, 1.5, 2.25]), "unsupported": None,
+               "tuplist": [rng.randint(1, 9), [rng.randint(1, 5), rng.randint(1, 5)]],     # rendered as a tuple holding a list
+               "mixedset": None}[kind]
         nodes.append({"name": "G%d" % i, "kind": "v", "module": rng.choice("ab"), "vkind": kind, "value": val})
     for i in range(n_p):
         nodes.append({"name": "h%d" % i, "kind": "p", "module": rng.choice("ab")})
@@ -182,6 +184,11 @@ def render_module(spec, mod, order_rng=None, plain=False):
         if n["kind"] == "v":
             if n["vkind"] == "unsupported":
                 out.append("%s = object()" % n["name"])
+            elif n["vkind"] == "mixedset":
+                # a set whose members cannot be ordered against each other: not a type memento tracks
+                out.append("%s = {\"\", \"NA\", \"n/a\", \"null\", \"-\", None, 0.5}" % n["name"])
+            elif n["vkind"] == "tuplist":
+                out.append("%s = (%r, %r)" % (n["name"], n["value"][0], n["value"][1]))
             else:
                 out.append("%s = %r" % (n["name"], n["value"]))
     out.append("")
@@ -194,6 +201,7 @@ def render_module(spec, mod, order_rng=None, plain=False):
     out.append("    if isinstance(v, (int, float)): return v")
     out.append("    if isinstance(v, str): return len(v) + ord(v[-1])")
     out.append("    if isinstance(v, list): return sum(v) * 3 + v[0]")
+    out.append("    if isinstance(v, tuple): return v[0] * 2 + sum(v[1])")
     out.append("    if isinstance(v, dict): return sum(v.values()) * 5")
     out.append("    return 0")
     out.append("")
@@ -264,7 +272,7 @@ def edit(rng, spec):
             n["nested"] += 1
             return s, "constant inside nested code of %s" % n["name"]
         if kind == "var":
-            vs = [v for v in s["nodes"] if v["kind"] == "v" and v["vkind"] != "unsupported"]
+            vs = [v for v in s["nodes"] if v["kind"] == "v" and v["vkind"] not in ("unsupported", "mixedset")]
             if vs:
                 v = rng.choice(vs)
                 if v["vkind"] == "int":
@@ -275,6 +283,8 @@ def edit(rng, spec):
                     v["value"] += "z"
                 elif v["vkind"] == "list":
                     v["value"] = v["value"] + [rng.randint(1, 5)]
+                elif v["vkind"] == "tuplist":
+                    v["value"] = [v["value"][0], v["value"][1] + [rng.randint(1, 5)]]
                 else:
                     v["value"]["k"] += 1
                 return s, "value of variable %s" % v["name"]
@@ -535,7 +545,9 @@ for ev in cfg["events"]:
             setattr(mods[ev["mod"]], ev["name"], fn(ev["target"]))
         elif op == "mutate":
             v = getattr(mods[ev["mod"]], ev["name"])
-            if isinstance(v, list):
+            if isinstance(v, tuple):
+                v[1].append(ev["value"])
+            elif isinstance(v, list):
                 v.append(ev["value"])
             else:
                 v["k"] = ev["value"]
